@@ -113,7 +113,7 @@ def r1(run, ctx):
     run.count('R1', n, 3, 'OS signal primitive call sites')
     sc = ctx.fn(P + 'send_signal_child')
     t = norm_text(sc.node)
-    run.check('R1', 'get_children(self._worker)' in t and 'children[pid].send_signal(signum)' in t
+    run.check('R1', 'get_children(self._worker' in t and 'children[pid].send_signal(signum)' in t
               and 'except KeyError' in t and 'NoSuchProcess' in t,
               'send_signal_child signals only a current child and refuses any other pid', sc,
               sc.node, 'send_signal_child can signal a pid that is not a child of the worker')
